@@ -189,7 +189,16 @@ class Extractor:
                 return self.descend(n["recv"], level)
             if nm == "extend" and len(n["args"]) == 1:
                 return self.descend(n["args"][0], level)
-            if nm in ("map", "for_each") and len(n["args"]) == 1:
+            if nm in SRC_METHODS | PASS_METHODS:
+                # a bare traversal with no per-element closure: yields the elements themselves, in order
+                item = self.source(n, level)
+                if item[0] == "root":
+                    res.levels = level + (3 - 0) if False else self._identity_levels(item, level)
+                    res.style.append("identity")
+                    res.body = {"k": "identity", "root": item[1]}
+                    res.identity = item[1]
+                    return res
+            if nm in ("map", "for_each", "flat_map") and len(n["args"]) == 1:
                 cl = strip(n["args"][0])
                 if cl.get("k") != "closure" or len(cl["params"]) != 1:
                     raise Unrecognised("%s without a single-parameter closure" % nm)
@@ -199,6 +208,15 @@ class Extractor:
                 res.levels = level + 1
                 return self.inner(cl["body"], level + 1, item)
             raise Unrecognised("unrecognised traversal method `%s`: %s" % (nm, short(pretty(n), 80)))
+        if k in ("local", "index"):
+            # a root passed whole to extend()/collect: all remaining levels in order
+            r = self.place(n)
+            if r[2] == level:
+                res.style.append("identity")
+                res.levels = self._identity_levels(("root", r[1], r[2] + 1), level)
+                res.body = {"k": "identity", "root": r[1]}
+                res.identity = r[1]
+                return res
         if k == "for":
             item = self.source(n["iter"], level)
             self.bind(n["pat"], item)
@@ -220,6 +238,10 @@ class Extractor:
                 raise Unrecognised("block with %d traversal statements" % len(cands))
             return self.descend(cands[0], level)
         raise Unrecognised("not a traversal: %s" % short(pretty(n), 80))
+
+    def _identity_levels(self, item, level):
+        """levels covered when the remaining sub-structure is taken whole: use the rank bookkeeping of the roots"""
+        return getattr(self, "rank", level + 1)
 
     def contains_traversal(self, n):
         """does n contain an iteration (iter/iter_mut/into_iter/for/0..len) over a known root?"""
@@ -260,8 +282,10 @@ class Extractor:
         return False
 
 
-def extract(crate, arm_body, roots):
+def extract(crate, arm_body, roots, rank=None):
     ex = Extractor(crate, roots)
+    if rank is not None:
+        ex.rank = rank
     r = ex.descend(arm_body, 0)
     if r.body is None:
         raise Unrecognised("no scalar level found")
